@@ -412,3 +412,80 @@ func unprotectedReachAll(p *Program, root *ssa.Function) map[*ssa.Function]bool 
 	}
 	return out
 }
+
+// c14PackedKeys: connection look-ups and frame fields combine an address, a port or a length into one integer by
+// shifting and or-ing. A left shift performed on the narrow type and only then converted to the wide one
+// (`uint64(x32<<16) | …`) silently drops the bits shifted out: two peers whose addresses differ only in those bits get the
+// same key and share one connection state. Shifts must be done on the already widened value.
+func c14PackedKeys(c *Ctx) {
+	p := c.P
+	const rule = "no-shift-before-widening"
+	n, bad := 0, 0
+	for _, fn := range p.FuncsIn(canaryRel) {
+		for _, b := range fn.Blocks {
+			for _, in := range b.Instrs {
+				cv, ok := in.(*ssa.Convert)
+				if !ok {
+					continue
+				}
+				_, hiTo, okTo := intWidth(cv.Type())
+				_, hiFrom, okFrom := intWidth(cv.X.Type())
+				if !okTo || !okFrom || hiTo <= hiFrom {
+					continue
+				}
+				sh, ok := cv.X.(*ssa.BinOp)
+				if !ok || sh.Op != token.SHL {
+					continue
+				}
+				k, isC := ConstInt(sh.Y)
+				if !isC || k <= 0 {
+					continue
+				}
+				n++
+				// harmless when the shifted operand provably fits: it was itself widened from something k bits narrower
+				fits := false
+				if inner, ok := sh.X.(*ssa.Convert); ok {
+					if _, hiIn, ok := intWidth(inner.X.Type()); ok && hiIn+int(k) <= hiFrom {
+						fits = true
+					}
+				}
+				if fits {
+					c.Ok(rule, fmt.Sprintf("%s %s", shortFn(fn), RenderN(cv, 3)), p.InstrPos(cv), "the shifted value was widened from a type that leaves room for the shift")
+					continue
+				}
+				bad++
+				c.Violate(rule, fmt.Sprintf("%s %s", shortFn(fn), RenderN(cv, 3)), p.InstrPos(cv), fmt.Sprintf("a %d-bit value is shifted left by %d and only then converted to %d bits: the top %d bits are lost before the conversion, so values that differ only there (two peers' addresses) pack to the same key and are treated as one connection", hiFrom, k, hiTo, k))
+			}
+		}
+	}
+	if bad == 0 {
+		c.Ok(rule, "listener/canary", "-", fmt.Sprintf("no narrow shift is widened afterwards (%d widening conversions of shifts looked at)", n))
+	}
+}
+
+// intWidth: signedness and bit width of an integer type (int/uint counted as 64).
+func intWidth(t types.Type) (signed bool, bits int, ok bool) {
+	b, isB := t.Underlying().(*types.Basic)
+	if !isB {
+		return false, 0, false
+	}
+	switch b.Kind() {
+	case types.Int8:
+		return true, 8, true
+	case types.Int16:
+		return true, 16, true
+	case types.Int32:
+		return true, 32, true
+	case types.Int64, types.Int:
+		return true, 64, true
+	case types.Uint8:
+		return false, 8, true
+	case types.Uint16:
+		return false, 16, true
+	case types.Uint32:
+		return false, 32, true
+	case types.Uint64, types.Uint, types.Uintptr:
+		return false, 64, true
+	}
+	return false, 0, false
+}
